@@ -271,6 +271,13 @@ class Store:
         self._propagate()
         self._width_implication(lin)
 
+    def refutes_ge0(self, lin):
+        """True when `lin >= 0` contradicts what is known (lin <= -1 is provable): used before assuming a hypothesis"""
+        lin = self.canon(Lin.of(lin))
+        if lin.is_const():
+            return lin.c < 0
+        return bool(self.prove_ge0(-lin - 1))
+
     def _width_implication(self, lin):
         """a bound on the width of the numeral of a non-negative value is a bound on the value:
         len(str(n)) > k  <=>  n >= 10**k   and   len(str(n)) <= k  <=>  n <= 10**k - 1   (beyond the minimum width)"""
